@@ -114,13 +114,16 @@ class C13:
             {"kind": "scripted", "mode": rc.choice(["gaussian", "gaussian", "ties"]), "seed": rc.randrange(1 << 30)}
         if use_am and name in ("tsp", "cvrp") and rc.random() < 0.5:
             scorer["kind"] = "nar"  # real non-autoregressive decoder (heatmap rows) behind a stub encoder
+        # evaluation normally runs without autograd (torch.no_grad / inference_mode): inference-only fast paths
+        # of the network are live only then.  Half of the real-network runs search with autograd off.
+        no_grad = bool(use_am and rc.random() < 0.5)
         return {"cfg": cfg, "instances": [E.enc_row(r) for r in rows], "scorer": scorer,
                 "warm": [E.enc_row(r) for r in warm],
                 "width_frac": rc.random(), "width_max": bool(rc.random() < 0.25),
                 # "beam widths from 2 up to the number of nodes": beyond the number of distinct start nodes
                 "width_over": rc.randint(1, 4) if rc.random() < 0.2 else 0,
                 "temperature": rc.choice([0.5, 1.0, 1.0, 2.0]), "tanh": rc.choice([0, 0, 10]),
-                "select_best": bool(rc.random() < 0.5), "torch_seed": rc.randrange(1 << 30)}
+                "select_best": bool(rc.random() < 0.5), "torch_seed": rc.randrange(1 << 30), "no_grad": no_grad}
 
     @staticmethod
     def sample(run):
@@ -211,7 +214,7 @@ class C13:
             wrows = [E.dec_row(r) for r in plan["warm"]]
             torch.manual_seed(plan["torch_seed"] + 1)
             with run.guard(scope, "policy forward on a previous batch (beam_search)", promise=False):
-                policy(E.reset(env, cfg, wrows), env, phase="test", decode_type="beam_search", beam_width=W,
+                _ng(plan, policy)(E.reset(env, cfg, wrows), env, phase="test", decode_type="beam_search", beam_width=W,
                        select_best=False, max_steps=cap, **dk)
             run.fault("policy_reuse")
             run.nontrivial = True
@@ -220,7 +223,7 @@ class C13:
         torch.manual_seed(plan["torch_seed"])
         with ProcessLogitsTap() as tap, StrategyCapture() as capt:
             with run.guard(scope, "policy forward decode_type=beam_search", width=W, B=B, knobs=dk):
-                out = policy(td, env, phase="test", decode_type="beam_search", beam_width=W, select_best=False,
+                out = _ng(plan, policy)(td, env, phase="test", decode_type="beam_search", beam_width=W, select_best=False,
                              return_sum_log_likelihood=False, max_steps=cap, **dk)
         strat = capt.last
         actions, ll, reward = out["actions"], out["log_likelihood"], out["reward"]
@@ -458,7 +461,7 @@ class C13:
         if plan["select_best"]:
             torch.manual_seed(plan["torch_seed"])
             with run.guard(scope, "policy forward decode_type=beam_search select_best=True", width=W, B=B):
-                ob = policy(E.reset(env, cfg, rows), env, phase="test", decode_type="beam_search", beam_width=W,
+                ob = _ng(plan, policy)(E.reset(env, cfg, rows), env, phase="test", decode_type="beam_search", beam_width=W,
                             select_best=True, return_sum_log_likelihood=False, max_steps=cap, **dk)
             run.probe("select_best_checked")
             rb, ab, lb = ob["reward"], ob["actions"], ob["log_likelihood"]
@@ -616,6 +619,18 @@ C13.CANARIES = {
     "select_best_layout": _canary_select_best_layout,
     "select_best_min": _canary_select_best_min,
 }
+
+
+def _ng(plan, policy):
+    """the policy, called with autograd switched off when the plan says so"""
+    if not plan.get("no_grad"):
+        return policy
+
+    def call(*a, **k):
+        with torch.no_grad():
+            return policy(*a, **k)
+
+    return call
 
 
 # --------------------------------------------------------------------------------------------------
